@@ -1,17 +1,47 @@
 ------------------------------ MODULE Gen_Avc ------------------------------
-(* Case generation: every value of the configured sets with its expected     *)
+(* Case generation: every value of the configured families with its expected *)
 (* encoding as a layout descriptor, one JSON line per value.                 *)
 EXTENDS Avc, TLC, Json
+CONSTANTS Tier
+Thorough == Tier = "thorough"
+
 GenHeaders == {<<66, 0, 30>>, <<100, 255, 31>>, <<0, 0, 0>>, <<255, 192, 255>>}
 QuickPatterns == {<<1>>, <<2>>, <<255, 256>>, <<65535>>, <<256, 1, 65535>>, <<2, 255>>}
 ThoroughPatterns == QuickPatterns \cup {<<65536>>, <<70000, 3>>, <<254, 257, 65534>>, <<16777215>>, <<16777216, 2>>}
+
+GenPosHeaders == {<<77, 64, 41>>}
+
+\* Annex-B look-alikes in NAL data: 00 00 01 / 00 00 00 01 at the start (also right behind a header byte 0,
+\* so that the NAL unit itself begins with zeros), in the middle and at the end of the payload
+GenMimics ==
+  {[sc |-> 0, w |-> "s", nri |-> 0, t |-> 0]}
+  \cup {[sc |-> sc, w |-> "s", nri |-> h[1], t |-> h[2]] : sc \in {3, 4}, h \in {<<0, 0>>, <<0, 1>>, <<3, 5>>}}
+  \cup {[sc |-> sc, w |-> w, nri |-> 2, t |-> 1] : sc \in {3, 4}, w \in (IF Thorough THEN {"m", "e"} ELSE {"e"})}
+
+\* The three header bytes are independent 8-bit fields: the full range of one, classes of the other two.
+\* Profile classes: the profile_idc values of ISO/IEC 14496-10 Annex A and the ends of the range;
+\* compatibility classes: no flag, every single constraint_set flag / reserved bit, combinations, all;
+\* level classes: 1b (9), 1 .. 5.1 representatives and the ends of the range.
+AllBytes == 0..255
+ProfCls  == IF Thorough THEN {0, 1, 44, 66, 77, 83, 86, 88, 100, 110, 118, 122, 128, 144, 244, 254, 255}
+            ELSE {0, 66, 77, 88, 100, 110, 122, 144, 244, 255}
+CompCls  == IF Thorough THEN {0, 1, 2, 4, 8, 16, 32, 64, 128, 192, 224, 240, 252, 255} ELSE {0, 64, 16, 192, 255}
+LevCls   == IF Thorough THEN {0, 9, 10, 11, 12, 13, 20, 30, 31, 40, 51, 52, 255} ELSE {0, 11, 31, 255}
+CompFew  == IF Thorough THEN {0, 16, 64, 192, 255} ELSE {16, 192}
+LevFew   == IF Thorough THEN {9, 11, 31, 255} ELSE {11, 31}
+GenMatrix == {<<p, c, l>> : p \in AllBytes, c \in CompCls, l \in LevCls}
+             \cup {<<p, c, l>> : p \in ProfCls, c \in AllBytes, l \in LevFew}
+             \cup {<<p, c, l>> : p \in ProfCls, c \in CompFew, l \in AllBytes}
 
 \* all 256 NAL header bytes as they arrive from an arbitrary writer
 HdrBytes == 0..255
 
 GenInit == /\ kind \in {"record", "sample", "nalu", "hdrbyte"}
-           /\ val \in (IF kind = "hdrbyte" THEN {[b |-> b, n |-> n, id |-> 9] : b \in HdrBytes, n \in {0, 1, 300}}
-                       ELSE Values(kind))
+           /\ \/ kind = "record" /\ PickRecord(val)
+              \/ kind = "sample" /\ PickSample(val)
+              \/ kind = "nalu"   /\ PickNalu(val)
+              \/ kind = "hdrbyte" /\ \E b \in HdrBytes, n \in {0, 1, 300} : val = [b |-> b, n |-> n, id |-> 9]
+           /\ kind # "hdrbyte" => Admissible(kind, val)
            /\ pc = "built" /\ wire = <<>> /\ back = <<>> /\ wire2 = <<>>
 GenNext == UNCHANGED vars
 
